@@ -320,9 +320,9 @@ func c02Gen(t *rapid.T) c02Case {
 	v := jgenObject(t, o, 0, "obj")
 	v = v.without("signatures", "unsigned")
 	// well-known member names are mixed in so that paths like "content" exist often
-	for _, k := range []string{"content", "type", "sender", "a.b", "hashes"} {
+	for _, k := range []string{"content", "type", "sender", "a.b", "hashes", "prev_events"} {
 		if rapid.IntRange(0, 3).Draw(t, "wk") == 0 {
-			v = v.with(k, jgenValue(t, o, 1, "wkv"))
+			v = v.with(k, jgenWrap(t, jgenValue(t, o, 1, "wkv"), "wkw"))
 		}
 	}
 	c := c02Case{Signer: c02GenSigner(t, "signer"), Wrong: c02GenSigner(t, "wrong"), Respell: rapid.Uint64().Draw(t, "respell")}
